@@ -822,6 +822,7 @@ def run(ctx: Ctx) -> None:
 
 _EP = "algos/evaluation_problem.py"
 WITNESSES = [
+    {"name": "seeded-C01-10", "file": "utils/derivatives/finite_differences.py", "old": "from numpy import zeros\n\nfrom gemseo.core.parallel_execution.callable_parallel_execution import (\n    CallableParallelExecution,\n)\nfrom gemseo.utils.derivatives.approximation_modes import ApproximationMode\nfrom gemseo.utils.derivatives.base_gradient_approximator import BaseGradientApproximator\nfrom gemseo.utils.derivatives.error_estimators import EPSILON\nfrom gemseo.utils.derivatives.error_estimators import compute_best_step\n\n\nclass FirstOrderFD(BaseGradientApproximator):\n    r\"\"\"First-order finite differences approximator.\n\n    .. math::\n\n        \\frac{df(x)}{dx}\\approx\\frac{f(x+\\\\delta x)-f(x)}{\\\\delta x}\n    \"\"\"\n\n    _APPROXIMATION_MODE = ApproximationMode.FINITE_DIFFERENCES\n\n    _DEFAULT_STEP: ClassVar[float] = 1.0e-6\n\n    def _compute_parallel_grad(\n        self,\n        input_values: ndarray,\n        input_perturbations: ndarray,\n        step: float | ndarray,\n        **kwargs: Any,\n    ) -> ndarray:\n        n_perturbations = input_perturbations.shape[1]\n        if step is None:\n            step = self.step\n\n        if not isinstance(step, ndarray):\n            step = full(n_perturbations, step)\n\n        self._function_kwargs = kwargs\n        functions = [self._wrap_function] * (n_perturbations + 1)\n        parallel_execution = CallableParallelExecution(functions, **self._parallel_args)\n\n        perturbated_inputs = [\n            input_perturbations[:, perturbation_index]\n            for perturbation_index in range(n_perturbations)\n        ]\n        initial_and_perturbated_outputs = parallel_execution.execute([\n            input_values,\n            *perturbated_inputs,\n        ])\n\n        gradient = []\n        initial_output = initial_and_perturbated_outputs[0]\n        for perturbation_index in range(n_perturbations):\n            perturbated_output = initial_and_perturbated_outputs[perturbation_index + 1]\n            g_approx = (perturbated_output - initial_output) / step[perturbation_index]\n            gradient.append(g_approx.real)\n", "new": "from numpy import zeros\nfrom numpy.linalg import norm\n\nfrom gemseo.core.parallel_execution.callable_parallel_execution import (\n    CallableParallelExecution,\n)\nfrom gemseo.utils.derivatives.approximation_modes import ApproximationMode\nfrom gemseo.utils.derivatives.base_gradient_approximator import BaseGradientApproximator\nfrom gemseo.utils.derivatives.error_estimators import EPSILON\nfrom gemseo.utils.derivatives.error_estimators import compute_best_step\n\n\nclass FirstOrderFD(BaseGradientApproximator):\n    r\"\"\"First-order finite differences approximator.\n\n    .. math::\n\n        \\frac{df(x)}{dx}\\approx\\frac{f(x+\\\\delta x)-f(x)}{\\\\delta x}\n    \"\"\"\n\n    _APPROXIMATION_MODE = ApproximationMode.FINITE_DIFFERENCES\n\n    _DEFAULT_STEP: ClassVar[float] = 1.0e-6\n\n    def _compute_parallel_grad(\n        self,\n        input_values: ndarray,\n        input_perturbations: ndarray,\n        step: float | ndarray,\n        **kwargs: Any,\n    ) -> ndarray:\n        n_perturbations = input_perturbations.shape[1]\n        self._function_kwargs = kwargs\n        functions = [self._wrap_function] * (n_perturbations + 1)\n        parallel_execution = CallableParallelExecution(functions, **self._parallel_args)\n\n        perturbated_inputs = [\n            input_perturbations[:, perturbation_index]\n            for perturbation_index in range(n_perturbations)\n        ]\n        initial_and_perturbated_outputs = parallel_execution.execute([\n            input_values,\n            *perturbated_inputs,\n        ])\n\n        gradient = []\n        initial_output = initial_and_perturbated_outputs[0]\n        for perturbation_index in range(n_perturbations):\n            perturbated_output = initial_and_perturbated_outputs[perturbation_index + 1]\n            # The effective step is the distance between the two points.\n            g_approx = (perturbated_output - initial_output) / norm(\n                perturbated_inputs[perturbation_index] - input_values\n            )\n            gradient.append(g_approx.real)\n", "expect": "1.11", "note": "Parallel finite differences divide by the distance between the points instead of"},
     {"name": "zero-range-replaced-in-both-directions", "file": DS, "old": "        self._norm_factor = self.__upper_bounds_array - self.__lower_bounds_array\n", "new": "        self._norm_factor = self.__upper_bounds_array - self.__lower_bounds_array\n        self._norm_factor = where(self._norm_factor == 0.0, 1.0, self._norm_factor)\n", "expect": "1.6"},
     {"name": "drop-normalize_grad", "file": _EP, "old": "jac_seq = (ds.unnormalize_vect, function.jac, *args, ds.normalize_grad)", "new": "jac_seq = (ds.unnormalize_vect, function.jac, *args)", "expect": "1.1"},
     {"name": "swap-unnormalize-round", "file": _EP, "old": "func_seq = (ds.unnormalize_vect, ds.round_vect, function.func)", "new": "func_seq = (ds.round_vect, ds.unnormalize_vect, function.func)", "expect": "1.1"},
